@@ -408,12 +408,47 @@ def gen_chords(repo):
     out.append("end Mingus.Gen.Chords")
     return "\n".join(out) + "\n"
 
+# ---------------------------------------------------------------- progressions
+def gen_progressions(repo):
+    t = parse(repo, "mingus/core/progressions.py")
+    fns = {n.name: n for n in t.body if isinstance(n, ast.FunctionDef)}
+    numerals = lit(module_assign(t, "numerals"))
+    nint = lit(module_assign(t, "numeral_intervals"))
+    fd = lit(local_assign(fns["determine"], "func_dict"))
+    ec = lit(local_assign(fns["determine"], "expected_chord"))
+    ss_h = lit(local_assign(fns["substitute_harmonic"], "simple_substitutions"))
+    ss = lit(local_assign(fns["substitute"], "simple_substitutions"))
+    # interval name -> function numeral chain in determine
+    chain = None
+    for n in ast.walk(fns["determine"]):
+        if isinstance(n, ast.If) and isinstance(n.test, ast.Compare) and getattr(n.test.left, "id", None) == "interval" \
+           and isinstance(n.test.comparators[0], ast.Constant) and n.test.comparators[0].value == "unison":
+            chain = n
+    if chain is None:
+        raise Shape("determine: interval -> func chain not found")
+    ifn = []
+    for k, body in chain_rows(chain, "interval"):
+        if len(body) != 1 or not isinstance(body[0], ast.Assign) or getattr(body[0].targets[0], "id", None) != "func":
+            raise Shape("determine: branch is not `func = <const>`")
+        ifn.append((k, lit(body[0].value)))
+    out = ["namespace Mingus.Gen.Progressions"]
+    out.append("def numerals : List (List Char) := " + llist(lstr(x) for x in numerals))
+    out.append("def numeralIntervals : List Int := " + llist(lint(x) for x in nint))
+    out.append("def funcDict : List (List Char × List Char) := " + llist("(%s, %s)" % (lstr(a), lstr(b)) for a, b in fd.items()))
+    out.append("def expectedChord : List (List Char × List Char × List Char) := " + llist("(%s, %s, %s)" % tuple(lstr(x) for x in r) for r in ec))
+    out.append("def simpleSubs : List (List Char × List Char) := " + llist("(%s, %s)" % (lstr(a), lstr(b)) for a, b in ss_h))
+    out.append("def substTable : List (List Char × List Char) := " + llist("(%s, %s)" % (lstr(a), lstr(b)) for a, b in ss))
+    out.append("def intervalFunc : List (List Char × List Char) := " + llist("(%s, %s)" % (lstr(a), lstr(b)) for a, b in ifn))
+    out.append("end Mingus.Gen.Progressions")
+    return "\n".join(out) + "\n"
+
 GENERATORS = {
     "Notes": gen_notes,
     "Keys": gen_keys,
     "Intervals": gen_intervals,
     "Scales": gen_scales,
     "Chords": gen_chords,
+    "Progressions": gen_progressions,
 }
 
 def main():
